@@ -5,7 +5,7 @@ import Verif.Model.Css
 `Verif.Model.Css.minifyProperty` answers `none` ("outside the model") for the two shorthands; this file adds them and
 `minifyDeclarationB`, the declaration minifier with both cases filled in (everything else is `Model.Css`).
 
-* `minifyFont` — the family start search (`famLoop`: backwards from the token in front of the first comma), the
+* `minifyFont` — the family start search (`famLoop`: backwards from the token in front of the first comma; size-keyword rule of 3013349), the
   `font-family` rewrite of the tail, the IE fix (a family starting with `-` is quoted), `/normal` line-height and the
   `normal` / `bold` / `400` rewrite of the tokens in front of the size.
 * `minifyBackground` — per comma-separated layer: the `/ <bg-size>` pass (`bgSizes`), then the token loop (`bgLoop`:
@@ -29,6 +29,9 @@ def fontSizeBreak : List (List Char) :=
 def fontSizeKws : List (List Char) :=
   ["xx-small", "x-small", "small", "medium", "large", "x-large", "xx-large", "smaller", "larger"].map S
 
+/-- a token that can be the font size or ends it: `/`, a length or percentage, a size keyword -/
+def sizeCand (t : Tok) : Bool := isSlash t || isLengthPercentage t || fontSizeKws.contains (identOf t)
+
 /-- index of the first comma at or behind position 2 -/
 def firstCommaFrom2 (vs : List Tok) : Option Nat := ((vs.drop 2).findIdx? isComma).map (· + 2)
 
@@ -41,10 +44,8 @@ def famLoop (vs : List Tok) : Nat → Nat
     if isSlash prev then i + 1
     else if cur.tt != .ident && cur.tt != .string then i + 1
     else if fontSizeBreak.contains (identOf cur) then
-      -- cf0d7b9: size (and line-height) in front: the keyword is the first word of a family name
-      if 0 < i && isSlash (vs.getD (i - 1) default) then i
-      else if isLengthPercentage prev || fontSizeKws.contains (identOf prev) then i
-      else i + 1
+      -- 3013349: the keyword is the font size unless a size candidate or a slash stands somewhere in front of it
+      if (vs.take (i + 1)).any sizeCand then famLoop vs i else i + 1
     else famLoop vs i
 
 /-- rewrite of one token in front of the font size: `none` = removed -/
@@ -59,11 +60,12 @@ def quoteDash (fam : List Tok) : List Tok :=
   | f :: r => if f.data.head? == some '-' then .mk f.tt ('\'' :: f.data ++ ['\'']) f.args :: r else fam
   | [] => []
 
-/-- the `font` case; `none` = a family string with a backslash (outside the model of `font-family`) -/
-def minifyFont (vs : List Tok) : Option (List Tok) :=
-  if vs.length ≤ 1 then some vs else
-  let i0 := (match firstCommaFrom2 vs with | some c => c - 1 | none => vs.length - 1) - 1
-  let i := famLoop vs i0
+/-- the index `i` at which the family search stops: the last token that is not part of the families -/
+def fontSplit (vs : List Tok) : Nat :=
+  famLoop vs ((match firstCommaFrom2 vs with | some c => c - 1 | none => vs.length - 1) - 1)
+
+/-- the `font` case once `i` is known -/
+def minifyFontAt (vs : List Tok) (i : Nat) : Option (List Tok) :=
   match minifyFontFamily (vs.drop (i + 1)) with
   | none => none
   | some fam =>
@@ -74,6 +76,10 @@ def minifyFont (vs : List Tok) : Option (List Tok) :=
       let mid := if identOf (head.getD i default) == S "normal" then [head.getD (i - 2) default] else head.drop (i - 2)
       some ((head.take (i - 2)).filterMap fontPreTok ++ mid ++ fam)
     else some ((head.take i).filterMap fontPreTok ++ head.drop i ++ fam)
+
+/-- the `font` case; `none` = a family string with a backslash (outside the model of `font-family`) -/
+def minifyFont (vs : List Tok) : Option (List Tok) :=
+  if vs.length ≤ 1 then some vs else minifyFontAt vs (fontSplit vs)
 
 /-! ## background -/
 
